@@ -248,6 +248,12 @@ structure File where
   /-- section names by index, symbol names by index -/
   secNames : List String
   symNames : List String
+  /-- the reference-class attributes of the DIE at (unit, offset): name ↦ (the form is `DW_FORM_ref_addr`,
+      `raw_value`); the other forms are the unit-relative ones -/
+  refAttr : Nat → Nat → String → Option (Bool × Nat) := fun _ _ _ => none
+  /-- `.debug_pubnames` as the `NameLUT` dict: name ↦ (`cu_ofs`, `die_ofs`); `none`: the section is absent.
+      (`get_pubnames()` builds a new `NameLUT` on every call; it reads its own section's stream.) -/
+  pubnames : Option (List (String × Nat × Nat)) := none
 
 inductive IterKind
   | cus
@@ -271,6 +277,9 @@ inductive Op
   | itNext (h : Nat)
   | secIdx (name : String)
   | symByName (name : String)
+  | siblings (cu off : Nat)
+  | ref (cu off : Nat) (name : String)
+  | pubname (name : String)
   deriving DecidableEq, Repr, Inhabited
 
 inductive Ans
@@ -414,6 +423,18 @@ def takeIter : Nat → Iter → State → List Nat → R (List Nat) × Iter × S
 
 def listSet {α} (l : List α) (i : Nat) (x : α) : List α := l.take i ++ x :: l.drop (i + 1)
 
+/-- `DWARFInfo.get_DIE_from_refaddr(x)` (no unit given) -/
+def refaddrAt (st : State) (x : Nat) : R Ans × State :=
+  match getCUCont' F st x with
+  | (.error e, st) => (.error e, st)
+  | (.ok c, st) =>
+    match cuEnd c with
+    | .error e => (.error e, st)
+    | .ok e =>
+      match inUnit st c (fun u => unitDIEFromRefaddr (F.parseDIE c.cuOffset) c.cuDieOffset e u x) with
+      | (.error e, st) => (.error e, st)
+      | (.ok d, st) => (.ok (.nat d.offset), st)
+
 /-- one public call on the live object -/
 def step (st : State) : Op → R Ans × State
   | .seek n => (.ok .unit, { st with pos := n })
@@ -436,16 +457,7 @@ def step (st : State) : Op → R Ans × State
     match dieAt F st cu off with
     | (.error e, st) => (.error e, st)
     | (.ok (_, d), st) => (.ok (.nat d.offset), st)
-  | .refaddr x =>
-    match getCUCont' F st x with
-    | (.error e, st) => (.error e, st)
-    | (.ok c, st) =>
-      match cuEnd c with
-      | .error e => (.error e, st)
-      | .ok e =>
-        match inUnit st c (fun u => unitDIEFromRefaddr (F.parseDIE c.cuOffset) c.cuDieOffset e u x) with
-        | (.error e, st) => (.error e, st)
-        | (.ok d, st) => (.ok (.nat d.offset), st)
+  | .refaddr x => refaddrAt F st x
   | .children cu off =>
     match dieAt F st cu off with
     | (.error e, st) => (.error e, st)
@@ -510,6 +522,49 @@ def step (st : State) : Op → R Ans × State
       | some [] => none
       | o => o
     (.ok (.optList r), { st with symMap := some m })
+  | .siblings cu off =>
+    -- `list(die.iter_siblings())`
+    match dieAt F st cu off with
+    | (.error e, st) => (.error e, st)
+    | (.ok (c, d), st) =>
+      -- `parent = self.get_parent()`
+      match inUnit st c (getParent (F.parseDIE c.cuOffset) c.cuDieOffset (fuelOf F) d) with
+      | (.error e, st) => (.error e, st)
+      -- `raise StopIteration()` inside the generator (PEP 479 hands it to the caller as RuntimeError)
+      | (.ok none, st) => (.error .stopIteration, st)
+      | (.ok (some p), st) =>
+        -- `for sibling in parent.iter_children(): if sibling is not self: yield sibling` (DIE objects are unique per offset)
+        match inUnit st c (fun u => drain (F.parseDIE c.cuOffset) c.cuDieOffset (fuelOf F) (ChildIter.new p) u []) with
+        | (.error e, st) => (.error e, st)
+        | (.ok l, st) => (.ok (.list ((l.filter (fun s => s.offset != d.offset)).map (·.offset))), st)
+  | .ref cu off name =>
+    -- `die.get_DIE_from_attribute(name)`
+    match dieAt F st cu off with
+    | (.error e, st) => (.error e, st)
+    | (.ok (c, d), st) =>
+      match F.refAttr c.cuOffset d.offset name with
+      | none => (.error .keyError, st)
+      | some (false, raw) =>
+        -- `self.cu.get_DIE_from_refaddr(self.cu.cu_offset + attr.raw_value)`
+        match cuEnd c with
+        | .error e => (.error e, st)
+        | .ok e =>
+          match inUnit st c (fun u => unitDIEFromRefaddr (F.parseDIE c.cuOffset) c.cuDieOffset e u (c.cuOffset + raw)) with
+          | (.error e, st) => (.error e, st)
+          | (.ok d', st) => (.ok (.nat d'.offset), st)
+      -- `self.cu.dwarfinfo.get_DIE_from_refaddr(attr.raw_value)`
+      | some (true, raw) => refaddrAt F st raw
+  | .pubname name =>
+    -- `e = di.get_pubnames().get(name)`, then `di.get_DIE_from_lut_entry(e)`
+    match F.pubnames with
+    | none => (.ok (.opt none), st)
+    | some tbl =>
+      match tbl.find? (·.1 == name) with
+      | none => (.ok (.opt none), st)
+      | some (_, cuo, dieo) =>
+        match dieAt F st cuo dieo with
+        | (.error e, st) => (.error e, st)
+        | (.ok (_, d), st) => (.ok (.list [cuo, dieo, d.offset]), st)
 
 /-- a whole history on one object -/
 def run (st : State) : List Op → State
